@@ -133,6 +133,35 @@ def doc_types(sel, b1, b2, opt, name_idx):
     return add_messages(d)
 
 
+def doc_types2(sel1, sel2, opt1, opt2, name1, name2):
+    """two properties with independent type shapes / optional states / names on one structure (thorough tier)"""
+    d = base_doc()
+    n1, n2 = NAMES[name1], NAMES[(name1 + 1 + name2) % len(NAMES)]
+    p1 = {"name": n1, "type": mk_type(sel1, 1, 0)}
+    p2 = {"name": n2, "type": mk_type(sel2, 0, 1)}
+    if OPT[opt1] is not None:
+        p1["optional"] = OPT[opt1]
+    if OPT[opt2] is not None:
+        p2["optional"] = OPT[opt2]
+    d["structures"].append({"name": "P", "properties": [p1, p2]})
+    return add_messages(d)
+
+
+def doc_graph5(e43, e42, e32, e31, e21, e20, e10, override):
+    """five structures; S_i may extend / mix in S_{i-1} and S_{i-2}; optionally S4 re-declares S0's property
+    (own declaration wins on a single chain)"""
+    d = base_doc()
+    edges = {(4, 3): e43, (4, 2): e42, (3, 2): e32, (3, 1): e31, (2, 1): e21, (2, 0): e20, (1, 0): e10}
+    for i in range(5):
+        props = [{"name": "prop%d" % i, "type": {"kind": "base", "name": "string"}, **({"optional": True} if i % 2 else {})}]
+        s = {"name": "S%d" % i, "properties": props}
+        for (a_, b_), k in edges.items():
+            if a_ == i and EDGE[k]:
+                s.setdefault(EDGE[k], []).append({"kind": "reference", "name": "S%d" % b_})
+        d["structures"].append(s)
+    return add_messages(d, params="S4")
+
+
 def doc_marks(ps, pp, pe, pv, pr, pn, dep, since):
     d = base_doc()
     prop = {"name": "label", "type": {"kind": "reference", "name": "Kind"}, "optional": True}
@@ -538,7 +567,7 @@ def evaluate(plugin, doc, prop=None):
     return (["%s: %s of %s: expected %r, emitted %r" % (plugin, k[-1], ".".join(str(x) for x in k[:-1] if x != ""), w, g) for k, w, g in new[:8]], known)
 
 
-FAMILY_RANGES = {"types": [NSHAPE, len(BASES), 3, 3, len(NAMES)], "marks": [2] * 8, "messages": [2, 2, 3, 3, 2, 4], "graph": [3] * 6, "enum": [3, 3, 2, 3], "literal": [5, 2, 2, len(NAMES), 3], "alias": [7, 4, 3]}
+FAMILY_RANGES = {"types2": [NSHAPE, NSHAPE, 3, 3, len(NAMES), len(NAMES) - 1], "graph5": [3] * 7 + [1], "types": [NSHAPE, len(BASES), 3, 3, len(NAMES)], "marks": [2] * 8, "messages": [2, 2, 3, 3, 2, 4], "graph": [3] * 6, "enum": [3, 3, 2, 3], "literal": [5, 2, 2, len(NAMES), 3], "alias": [7, 4, 3]}
 
 
 def _concretize(f, n):
@@ -552,7 +581,7 @@ def _concretize(f, n):
     raise AssertionError("flag outside its range")
 
 
-DOCS = {"alias": doc_aliasfam, "types": doc_types, "marks": doc_marks, "messages": doc_messages, "graph": doc_graph, "enum": doc_enum, "literal": doc_literal}
+DOCS = {"types2": doc_types2, "graph5": doc_graph5, "alias": doc_aliasfam, "types": doc_types, "marks": doc_marks, "messages": doc_messages, "graph": doc_graph, "enum": doc_enum, "literal": doc_literal}
 
 
 def tiny_ok(family, plugin, *flags):
@@ -651,6 +680,15 @@ def tiny_lemmas(plugins, tier):
         for inh in range(3):
             add(plugin, "literal", "i%d" % inh, ["where", "o1", "o2", "name_idx"], [5, 2, 2, len(NAMES)], "where, o1, o2, name_idx, %d" % inh, {"inh": inh})
         add(plugin, "alias", "all", ["kind", "extra", "used"], [7, 4, 3], "kind, extra, used", {})
+        if tier == "thorough":
+            for s1 in range(NSHAPE):
+                add(plugin, "types2", "s%d" % s1, ["sel2", "opt1", "opt2"], [NSHAPE, 3, 3], "%d, sel2, opt1, opt2, 0, 0" % s1, {"sel1": s1, "name1": 0, "name2": 0})
+            add(plugin, "types2", "names", ["name1", "name2", "si"], [len(NAMES), len(NAMES) - 1, 3], "(0, 2, 3)[si], 9, 2, 0, name1, name2", {})
+            for sel in range(NSHAPE):
+                add(plugin, "types", "n%d" % sel, ["opt", "name_idx", "b2"], [3, len(NAMES), 3], "%d, 1, b2, opt, name_idx" % sel, {"sel": sel, "b1": 1})
+            for e43 in range(3):
+                for e42 in range(3):
+                    add(plugin, "graph5", "e%d%d" % (e43, e42), ["e32", "e31", "e21", "e20", "e10"], [3] * 5, "%d, %d, e32, e31, e21, e20, e10, 0" % (e43, e42), {"e43": e43, "e42": e42})
     return L
 
 
